@@ -182,7 +182,9 @@ def monitor(cfg, op, o):
         if burned > 0 and o["energy"][u] != exp:
             out.append(("exit-energy", f"{op}: energy entry {o['energy'][u]}, expected {exp} (burned {burned}, rewards {ra})"))
     elif k in ("MergeWlp", "MergeWfm", "IncLp", "IncFm", "Claim"):
-        ra = outs[1][2] if k == "Claim" else 0
+        # nothing is minted or burned by the proxy; the only new locked tokens are farm rewards (returned by claim;
+        # on a farm-token merge the farm pays boosted rewards too)
+        ra = outs[1][2] if k == "Claim" else (o["env"]["rew"][1] if k == "MergeWfm" else 0)
         if o["dbase"] != 0 or o["dlocked"] != ra:
             out.append(("merge-supply", f"{op}: base supply {o['dbase']}, locked supply {o['dlocked']} (rewards {ra})"))
     return out
@@ -225,6 +227,27 @@ def nontrivial(cfg, op, o):
     return None
 
 
+def distinguishing(op, o, key):
+    """per-property distinguishing-case counters (coverage.counters)"""
+    k = op[0]
+    c = []
+    if k == "RemoveLiq":
+        c.append("case:remove:" + {1: "pool-surplus-paid-as-base", -1: "pool-shortfall-burns-locked", 0: "exact"}[key[1]])
+        if key[3]: c.append("case:remove:inexact-part")
+        if key[4] and key[1] == -1: c.append("case:remove:energy-refund-expired-lock")
+    elif k == "ExitFarm":
+        if key[2]: c.append("case:exit:penalty-" + ("locked" if key[1] else "wrapped-lp"))
+        if not key[3]: c.append("case:exit:partial")
+    elif k == "AddLiq":
+        if key[1]: c.append("case:add:locked-leftover-returned")
+        if key[3]: c.append("case:add:with-merge")
+    elif k == "EnterFarm" and key[2]:
+        c.append("case:enter:with-merge")
+    elif k == "MergeWfm" and o["env"]["rew"][1] > 0:
+        c.append("case:merge-farm:boosted-rewards-kept-by-proxy")
+    return c
+
+
 # ------------------------------------------------------------------ exploration
 def _gen(args):
     seed, nops = args
@@ -260,6 +283,8 @@ def explore(tier, seed, model_ok=True, focus=False):
             key = nontrivial(cfg, op, o)
             if key is not None:
                 ex.nontrivial.add(key)
+                for c in distinguishing(op, o, key):
+                    ex.count(c)
             for fk, what in monitor(cfg, op, o):
                 ex.failures.append(dict(key=fk, what=what, replay=dict(cfg=cfg, ops=ops_all[:j + 1], seed=sd,
                                                                          observed=json.loads(json.dumps(strip(o), default=str)))))
